@@ -190,7 +190,9 @@ func (d *Document) writeJSONValue(buf *bytes.Buffer, value Value) error {
 				variableName := d.Input.ByteSliceString(d.VariableValues[objFieldValue.Ref].Name)
 				_, dataType, _, _ := jsonparser.Get(d.Input.Variables, variableName)
 				if dataType == jsonparser.NotExist {
-					continue
+					if _, hasDefault := d.variableDefaultValue(variableName); !hasDefault {
+						continue
+					}
 				}
 			}
 
@@ -211,6 +213,10 @@ func (d *Document) writeJSONValue(buf *bytes.Buffer, value Value) error {
 		variableName := d.Input.ByteSliceString(d.VariableValues[value.Ref].Name)
 		variableValue, dataType, _, err := jsonparser.Get(d.Input.Variables, variableName)
 		if err != nil {
+			if defaultValue, hasDefault := d.variableDefaultValue(variableName); hasDefault {
+				// a variable without a value takes the default value of its definition
+				return d.writeJSONValue(buf, defaultValue)
+			}
 			buf.Write(literal.NULL)
 			return nil //nolint:nilerr // A missing variable is rendered as GraphQL null.
 		}
@@ -225,6 +231,17 @@ func (d *Document) writeJSONValue(buf *bytes.Buffer, value Value) error {
 		return fmt.Errorf("ValueToJSON: not implemented for kind: %s", value.Kind.String())
 	}
 	return nil
+}
+
+// variableDefaultValue returns the (constant) default value of the variable definition with the given name
+func (d *Document) variableDefaultValue(name string) (Value, bool) {
+	for i := range d.VariableDefinitions {
+		if d.VariableDefinitions[i].DefaultValue.IsDefined && d.VariableDefinitionNameString(i) == name &&
+			!d.ValueContainsVariable(d.VariableDefinitions[i].DefaultValue.Value) {
+			return d.VariableDefinitions[i].DefaultValue.Value, true
+		}
+	}
+	return Value{}, false
 }
 
 func (d *Document) ValueToJSON(value Value) ([]byte, error) {
